@@ -317,6 +317,15 @@ sqf::runtime::runtime::result sqf::runtime::runtime::execute(sqf::runtime::runti
         decimals_scope(int* active) : previous(sqf::types::d_scalar::decimals_active(active)) {}
         ~decimals_scope() { sqf::types::d_scalar::decimals_active(previous); }
     } decimals_scope_instance(&m_scalar_decimals);
+    // The step actions work on the active script. One that is finished (or never got anything to execute)
+    // is done with: stepping continues with the next script instead of reporting `empty` forever.
+    auto skip_finished_contexts = [this]() {
+        while (m_context_active && m_context_active->empty())
+        {
+            m_contexts.erase(std::remove(m_contexts.begin(), m_contexts.end(), m_context_active), m_contexts.end());
+            m_context_active = m_contexts.empty() ? std::shared_ptr<context>() : m_contexts.front();
+        }
+    };
     switch (action)
     {
     case action::leave_scope:
@@ -324,6 +333,7 @@ sqf::runtime::runtime::result sqf::runtime::runtime::execute(sqf::runtime::runti
         {
             m_is_exit_requested = false;
             m_is_halt_requested = false;
+            skip_finished_contexts();
             if (m_contexts.empty())
             { // nothing is loaded: there is no scope to leave
                 res = result::empty;
@@ -538,6 +548,7 @@ sqf::runtime::runtime::result sqf::runtime::runtime::execute(sqf::runtime::runti
         {
             m_is_exit_requested = false;
             m_is_halt_requested = false;
+            skip_finished_contexts();
             m_state = state::running;
             res = execute_do(*this, 1);
             switch (res)
@@ -581,6 +592,7 @@ sqf::runtime::runtime::result sqf::runtime::runtime::execute(sqf::runtime::runti
             bool success;
             m_state = state::running;
             std::optional<diagnostics::diag_info> dinf;
+            skip_finished_contexts();
             if (m_contexts.empty())
             { // nothing is loaded: there is no line to step over
                 res = result::empty;
